@@ -109,14 +109,16 @@ def lock_kernel(chk, it):
     G.atomic_domains = {'single:Transaction'}
     st = State()
     sh0 = z3.BitVec('stake0_txhash', 256)
-    stakes = MapM().insert(S.txhash(sh0), sym_stakedoc('stake0'))
+    # the state may hold no stake at all (a fresh network, or every stake expired), and the batch may register none
+    has0, has_new = z3.Bool('stake0_registered'), z3.Bool('newstake_registered')
+    stakes = MapM().insert(S.txhash(sh0), sym_stakedoc('stake0'), has0)
     state, sterms = B.sym_state(st.pc, stakes=stakes.entries)
     B.install_history_invariant(it, sterms['height'])
     st.pc.append(z3.UGE(sterms['height'], 1))
     st.pc.append(z3.ULE(sterms['height'], 100_000_000))
     tx, tt = B.sym_tx('tx', 2, 1, 1, st.pc, exclude_kinds=('DoscMint',))
     nh = z3.BitVec('newstake_txhash', 256)
-    new_stakes = Opaque('Map', MapM().insert(S.txhash(nh), sym_stakedoc('newstake')))
+    new_stakes = Opaque('Map', MapM().insert(S.txhash(nh), sym_stakedoc('newstake'), has_new))
     # relevant coins: both inputs present (arbitrary data)
     rc = MapM()
     tot = z3.BitVecVal(0, 136)
@@ -134,14 +136,15 @@ def lock_kernel(chk, it):
     fn = it.by_last['check_tx_validity'][0]
     outs = it.exec_fn(st, fn, [Ptr(st.alloc(state)), Ptr(st.alloc(tx)), Ptr(st.alloc(Opaque('Map', rc))), Ptr(st.alloc(new_stakes))])
     netd, h = sterms['network'], sterms['height']
-    inputs = {'network': netd, 'height': h, 'stake0_txhash': sh0, 'newstake_txhash': nh}
+    inputs = {'network': netd, 'height': h, 'stake0_txhash': sh0, 'newstake_txhash': nh,
+              'stake0_registered': z3.If(has0, bv(1, 8), bv(0, 8)), 'newstake_registered': z3.If(has_new, bv(1, 8), bv(0, 8))}
     inputs.update(dict(('tx_' + k, v) for k, v in tt.items()))
     ins = [(c.fields[0].fields[0].fields[0]) for c in tx.fields[1].fields]
-    touches = z3.Or([z3.Or(x == sh0, x == nh) for x in ins])
+    touches = z3.Or([z3.Or(z3.And(has0, x == sh0), z3.And(has_new, x == nh)) for x in ins])
     # the staked coin itself is output 0 of the stake transaction (the property locks that coin; whether the change outputs
     # of a stake transaction are locked as well is not part of it)
     idxs = [c.fields[1] for c in tx.fields[1].fields]
-    touches_staked = z3.Or([z3.And(z3.Or(x == sh0, x == nh), i == 0) for x, i in zip(ins, idxs)])
+    touches_staked = z3.Or([z3.And(z3.Or(z3.And(has0, x == sh0), z3.And(has_new, x == nh)), i == 0) for x, i in zip(ins, idxs)])
     old = old_rules(netd, h, 900000)
     n = 0
     covers = {}
